@@ -121,7 +121,9 @@ class Module:
         self.path = path
         self.relpath = relpath
         self.src = src
-        self.tree = ast.parse(src, filename=path)
+        from .canon import canonicalise
+
+        self.tree = canonicalise(ast.parse(src, filename=path))
         self.lines = src.split("\n")
         self.is_pkg = os.path.basename(path) == "__init__.py"
         self.imports = {}  # local name -> ("module", modname) | ("symbol", modname, symname)
